@@ -6,7 +6,8 @@
     (c01 VIA F E (amb KV…) CLK WHEN EVT T)
     (static N (c01 …))
 
-    VIA  ::= (via gen|slot|setup ENTRY)      (how the runtime is held: generic value, AmbientSlot, Setup::init_slot)
+    VIA  ::= (via gen|slot|setup|initrt ENTRY)   (how the runtime is held: generic value, AmbientSlot, Setup::init_slot,
+                                                  Setup::init_runtime)
     ENTRY ::= core | rt | rtemit | rtdyn | (hook K) | (hookevt TPLOPT K) | (macro N)
            | (lvlmacro LEVEL N)                    emit::debug!/info!/warn!/error! at fixture N
            | (evtmacro LM N VIA)                   emit::evt!/debug_evt!/…/error_evt! at fixture N, emitted by VIA
@@ -375,7 +376,7 @@ def entry? : Sexp → Option Entry
 
 def via? : Sexp → Option Via
   | .list [.atom "via", .atom k, e] =>
-    if k == "gen" || k == "slot" || k == "setup" then (entry? e).map fun e => ⟨k, e⟩ else none
+    if k == "gen" || k == "slot" || k == "setup" || k == "initrt" then (entry? e).map fun e => ⟨k, e⟩ else none
   | _ => none
 
 def Entry.name : Entry → String
